@@ -80,7 +80,9 @@ def run(rep, tier):
                 if o.get("kind") == "arg" and o.get("n") == 1 and ".s" in o.get("proj", []) and "&" in o.get("proj", []) and \
                         call.arg_types and call.arg_types[0].startswith("&mut"):
                     muts.append(call)
-        other = [x for x in muts if not x.matches(REMOVERS) and not x.matches(["String::push_str", "String::push"])]
+        other = [x for x in muts if not x.matches(REMOVERS) and not x.matches(["String::push_str", "String::push", "Extend<&'a str>>::extend", "Extend<char>>::extend",
+                                                                         "Extend<&str>>::extend", "Extend<std::string::String>>::extend"])
+                 and not (x.callee.endswith("::extend") and "iter::Extend" in x.callee and "String as" in x.callee)]
         rep.ob("R25.2", "all other mutations of the buffer in push_str_impl are appends", not other,
                f"{[x.callee for x in other]}", f.loc())
     rep.guard("R25.2", "buffer removals", r2)
